@@ -7,7 +7,7 @@ use owlchess::types::OutcomeFilter;
 use owlchess::{Color, DrawReason, Outcome, WinReason};
 
 fn starts(ctx: &mut Ctx, flavor: Flavor) -> MPos {
-    let fixed = gen::fixed_positions();
+    let fixed: Vec<MPos> = if ctx.light() { gen::fixed_positions_slice(ctx.shard * 5 + ctx.cases as usize, 3).into_iter().map(|x| x.1).collect() } else { gen::fixed_positions() };
     let mut s = match ctx.rng.below(10) {
         0..=2 => fixed[0].clone(),
         3..=6 => ctx.rng.pick(&fixed).clone(),
